@@ -2,7 +2,7 @@
    enclosure goals tied to the complex specification. *)
 From Coq Require Import Reals List ZArith Lia Lra.
 From Coquelicot Require Import Complex.
-From AL Require Import C12.Model C12.Spec C12.ModelR C12.Proofs.
+From AL Require Import C12.Model C12.Spec C12.ModelR C12.Proofs C12.ProofsT.
 Import ListNotations.
 Open Scope R_scope.
 
@@ -206,4 +206,35 @@ Proof.
   - right. reflexivity.
   - simpl. lia.
   - lia.
+Qed.
+
+(* ---- nested filter lists ---- *)
+Definition R_tree_fr_eq_spec := tree_fr_eq_spec CR_ops CR_cx CR_field Ceqb_spec CR_cx_0 CR_cx_add.
+Definition R_tree_fr_value := tree_fr_value CR_ops CR_cx CR_field Ceqb_spec CR_cx_0 CR_cx_add.
+Definition R_same_kind_nesting_flattens := same_kind_nesting_flattens CR_ops CR_cx CR_field.
+
+Section RtreeInd.
+Variable P : rtree -> Prop.
+Hypothesis Hlin : forall b a, P (RLin b a).
+Hypothesis Hcas : forall l, Forall P l -> P (RCas l).
+Hypothesis Hpar : forall l, Forall P l -> P (RPar l).
+Fixpoint rtree_ind2 (t : rtree) : P t :=
+  match t with
+  | RLin b a => Hlin b a
+  | RCas l => Hcas l ((fix go (l : list rtree) : Forall P l :=
+                         match l with [] => Forall_nil P | x :: r => Forall_cons x (rtree_ind2 x) (go r) end) l)
+  | RPar l => Hpar l ((fix go (l : list rtree) : Forall P l :=
+                         match l with [] => Forall_nil P | x :: r => Forall_cons x (rtree_ind2 x) (go r) end) l)
+  end.
+End RtreeInd.
+
+(* the real formula of the enclosure goals is the transfer function of the nested filter *)
+Lemma spec_tree_correct t w : tree_tf CR_ops CR_cx (rtree_inj t) w = spec_tree t w.
+Proof.
+  induction t as [b a|l IH|l IH] using rtree_ind2.
+  - exact (spec_c_correct b a w).
+  - cbn [rtree_inj spec_tree]. rewrite (tree_tf_cas CR_ops CR_cx), map_map. f_equal.
+    apply map_Forall_eq. exact IH.
+  - cbn [rtree_inj spec_tree]. rewrite (tree_tf_par CR_ops CR_cx), map_map. f_equal.
+    apply map_Forall_eq. exact IH.
 Qed.
